@@ -124,6 +124,30 @@ def mk_history(H, W, nsteps):
     return h
 
 
+def mk_wide(H, W, o, a):
+    """two unrelated move attempts in the same direction on a LONG grid, one after the other in the same process (whatever the first
+    left behind in the library must not matter to the second): the kinematic law for both"""
+    f = transition('move_agent')
+    FW = [e for e in SIGMA_2C if e[0] == 'Floor']
+
+    def h(sx):
+        for rnd in range(2):
+            state, world = lazy_state(sx, H, W, FW, held_sigma=[], name=f'g{rnd}', agent=f'a{rnd}', held=f'held{rnd}', orientations=[o])
+            py, px = state.agent.position.y, state.agent.position.x
+            dy, dx = rot(TURNS[o], *MOVE_UNIT[a])
+            ty, tx = py + dy, px + dx
+            ey, ex = py, px
+            if sym_and(0 <= ty, ty < H, 0 <= tx, tx < W):
+                if not blocks_movement(world.make(int(ty), int(tx))):
+                    ey, ex = ty, tx
+            f(state, a)
+            sx.check(state.agent.orientation is o, f'heading-attempt{rnd}')
+            sx.check(sym_and(state.agent.position.y == ey, state.agent.position.x == ex), f'position-attempt{rnd}',
+                     f'attempt {rnd}: from {(py, px)} expected {(ey, ex)} got {(state.agent.position.y, state.agent.position.x)}')
+        sx.cover('two-attempts-on-a-long-grid')
+    return h
+
+
 def h_turn_algebra(sx):
     """left then right, right then left, and four equal turns restore the heading; never displace"""
     from ..stubs import ORS
@@ -144,6 +168,11 @@ def obligations(tier):
     sigma = SIGMA_2C if tier == 'quick' else SIGMA_FULL
     shp = shapes(3, 3) if tier == 'quick' else shapes(4, 4) + [(5, 5)]
     obs = [Obligation('turn-algebra', h_turn_algebra)]
+    from ..stubs import ORS
+    for (H, W) in ([(2, 40)] if tier == 'quick' else [(2, 40), (40, 2), (3, 70)]):
+        for o in ORS:
+            for a in (MOVE_UNIT if tier != 'quick' else [Action.MOVE_FORWARD, Action.MOVE_RIGHT]):
+                obs.append(Obligation(f'long-grid-{H}x{W}-two-attempts-{o.name}-{a.name}', mk_wide(H, W, o, a), dict(H=H, W=W, heading=o.name, action=a.name, alphabet='Floor')))
     for (H, W, n) in ([(1, 2, 3), (1, 3, 2), (2, 2, 2)] if tier == 'quick' else [(1, 2, 3), (1, 3, 3), (2, 2, 3), (2, 3, 2)]):
         obs.append(Obligation(f'history-{n}steps-{H}x{W}', mk_history(H, W, n), dict(H=H, W=W, steps=n, alphabet=[e[0] for e in HIST], dynamics='full chain')))
     for fname in list(SINGLE) + list(CHAINS):
